@@ -51,7 +51,7 @@ def digest(*parts) -> str:
 
 
 class SoftTimeout(BaseException):
-    """Raised by SIGALRM inside the worker's main thread (BaseException: parsers must not swallow it)."""
+    """Raised by the watchdog signal (SIGPROF, CPU time) inside the worker's main thread (BaseException: parsers must not swallow it)."""
 
 
 def _on_alarm(signum, frame):
@@ -65,14 +65,16 @@ class watchdog:
     def __init__(self, seconds: float | None = None):
         self.seconds = seconds or SOFT_LIMIT
 
+    # The limit is CPU time of this process (ITIMER_PROF), not wall-clock time: the code under test is pure
+    # computation, and a verdict must not depend on how busy the machine is.
     def __enter__(self):
-        self.old = signal.signal(signal.SIGALRM, _on_alarm)
-        signal.setitimer(signal.ITIMER_REAL, self.seconds)
+        self.old = signal.signal(signal.SIGPROF, _on_alarm)
+        signal.setitimer(signal.ITIMER_PROF, self.seconds)
         return self
 
     def __exit__(self, *exc):
-        signal.setitimer(signal.ITIMER_REAL, 0)
-        signal.signal(signal.SIGALRM, self.old)
+        signal.setitimer(signal.ITIMER_PROF, 0)
+        signal.signal(signal.SIGPROF, self.old)
         return False
 
 
@@ -178,7 +180,7 @@ def outcome(src: str, mode: str = "exec", **opts) -> Outcome:
     """Canonical result of XonshParser.parse_string under the watchdog."""
     XP = XonshParser()
     try:
-        with watchdog():
+        with watchdog(SOFT_LIMIT + len(src) / 5000):  # (long inputs get proportionally more)
             tree = XP.parse_string(src, mode=mode, **opts)
         return Outcome("tree", tree=tree)
     except SoftTimeout:
